@@ -900,7 +900,7 @@ impl Sim for C13 {
   }
   fn runs(&self, tier: Tier) -> u64 {
     match tier {
-      Tier::Quick => 40_000,
+      Tier::Quick => 25_000,
       Tier::Thorough => 1_000_000,
     }
   }
